@@ -8,6 +8,12 @@ with its nested `_stream_files`, are run on generated
     class relative to the existing boundaries of the unedited stream,
   * pairs of snapshots that contain one equal file at different stream offsets,
   * pairs of keys on one stream,
+  * INPUT BLOCKS OF EVERY SIZE CLASS (`harness/impl/c11_blocks.py`): the block sizes are derived from the integer constants the
+    extractor finds in adapters.py / repository.py / adapters.cpp (`Gen.sizeConstants`) — blocks just below / at / just above /
+    a tail above / twice / several times each constant, as the last / first / middle / every block, whole streams as ONE block,
+    last blocks beyond every constant; multi-MiB streams on the natively rebuilt chunker (direct oracle only: split
+    independence, shared suffix, local edit, and the same edit through two real snapshots of a large file); constants below
+    4096 also through the Lean tie,
 and compared with the compiled Lean model (`chunk.sync`, `chunk.all`, `chunk.pad_stream`) after mapping both to the
 observable the theorems speak about (chunk lengths, first common boundary as an offset of the shared suffix, the chunk
 lists after it, the greedy chunking of the rest, file start offsets).
@@ -30,7 +36,8 @@ import shutil
 import time
 from pathlib import Path
 
-from ..common import WORK, Driver, digest, rng_for, use_rebuilt_chunker
+from ..common import REPO, WORK, Driver, digest, rng_for, use_rebuilt_chunker
+from ..impl import c11_blocks as BL
 
 # D = D_FACTOR · max.  Measured on the rebuilt chunker (2·10^5 random pairs, (min,max) in {(2,32),(4,64),(16,256)}): the first common
 # boundary outside the tail zone lies beyond k·max after the shared data begins with frequency ≈ 4e-2, 4e-4, 1e-5 for k = 1, 2, 3
@@ -283,16 +290,20 @@ def observe(case, ca, cb):
 
 def oracle(case, ca, cb, align):
     """C11's statement on the implementation's output.  Returns [(sig, what)]."""
-    mn, mx, pa, pb, u = case['min'], case['max'], case['pa'], case['pb'], case['u']
     A, B = b''.join(case['a']), b''.join(case['b'])
-    bad = []
     if b''.join(ca) != A or b''.join(cb) != B:
         return [('c11:not-lossless', 'the chunks do not concatenate to the stream (C10), C11 cannot be evaluated')]
-    ta, tb = table(ca), table(cb)
-    nx = len(A) - pa
-    assert nx == len(B) - pb
+    return oracle_tables(case, table(ca), table(cb), len(A), len(B), align)
+
+
+def oracle_tables(case, ta, tb, nA, nB, align):
+    """the same on (offset, length) tables of two loss-free chunkings of streams of nA / nB bytes (no stream bytes needed)"""
+    mn, mx, pa, pb, u = case['min'], case['max'], case['pa'], case['pb'], case['u']
+    bad = []
+    nx = nA - pa
+    assert nx == nB - pb
     # --- alignment of boundaries outside the tail zone
-    for name, t, total in (('A', ta, len(A)), ('B', tb, len(B))):
+    for name, t, total in (('A', ta, nA), ('B', tb, nB)):
         for s, l in t:
             if s + 2 * mx <= total and (s + l) % align:
                 bad.append(('c11:unaligned-boundary', f'stream {name}: boundary {s + l} outside the tail zone is not a multiple of the alignment {align}'))
@@ -313,7 +324,7 @@ def oracle(case, ca, cb, align):
                     f'{za[k] if k < len(za) else None} vs {zb[k] if k < len(zb) else None} (offset, length) — outside the tail zone'))
     # --- prefix: chunks that start >= ceil4(max) before the edit are identical (outside both tail zones)
     if u:
-        lim = min(len(A), len(B))
+        lim = min(nA, nB)
         qa = [(s, l) for s, l in ta if s + ceil4(mx) <= u and s + 2 * mx <= lim]
         qb = [(s, l) for s, l in tb if s + ceil4(mx) <= u and s + 2 * mx <= lim]
         if qa != qb:
@@ -729,6 +740,404 @@ def snapshot_part(out, drv, r, n, scratch):
             out.traces_validated += 1
 
 
+# ------------------------------------------------------------------------------------------------ input blocks of every size class
+QUICK_BLOCK_BUDGET = 64 << 20          # bytes per generated stream
+THOROUGH_BLOCK_BUDGET = 640_000_000
+SNAP_BLOCK_BUDGET = 24 << 20           # size of the large file of a real snapshot
+SMALL_CONST = 4096                     # constants below: sampled per run, small streams, also through the Lean tie
+HUGE_CONST = 128 << 20                 # constants above (thorough tier): one job, fewer segmentations
+
+
+def impl_cuts(mn, mx, key, blocks, S):
+    """chunk LENGTHS of the real adapter for the stream S handed over in the given blocks; every chunk is compared with S and
+    dropped at once (multi-MiB streams).  Returns (lengths, loss-free?)."""
+    from replicat.utils import adapters
+    ch = adapters.gclmulchunker(min_length=mn, max_length=mx)
+    lens, off, ok = [], 0, True
+    for c in ch(BL.iter_blocks(S, blocks), params=key):
+        n = len(c)
+        if ok and S[off:off + n] != c:
+            ok = False
+        lens.append(n)
+        off += n
+    return lens, ok and off == len(S)
+
+
+def table_of_lens(lens):
+    out, off = [], 0
+    for n in lens:
+        out.append((off, n))
+        off += n
+    return out
+
+
+def const_bucket(c):
+    return '<4Ki' if c < 4096 else '4Ki..1Mi' if c < (1 << 20) else '1Mi..16Mi' if c < (16 << 20) else '16Mi..128Mi' if c < (128 << 20) else '>=128Mi'
+
+
+def pick_seg(r, sizes, L, nat, want=None):
+    """(label, run-length encoded blocks)"""
+    kind = want or r.choice(['one-block', 'one-block', 'last', 'last', 'last', 'first', 'all', 'middle', 'last-two', 'natural'])
+    if kind == 'one-block':
+        return 'one-block', [[L, 1]]
+    if kind == 'natural':
+        return 'natural', BL.fill(L, nat)
+    label = r.choice(sorted(sizes))
+    return f'{kind}:{label}', BL.segmentation(kind, sizes[label], L, nat)
+
+
+def gen_block_family(r, cinfo, family, budget, align, thorough=False):
+    """cases of one family for one size constant; [] if no stream above the constant fits the budget"""
+    c = cinfo['value']
+    prm = BL.params_for(r, c, budget)
+    if prm is None:
+        return []
+    mn, mx = prm
+    m, L = BL.stream_length(r, c, mx, budget)
+    nat = BL.natural_size(c)
+    sizes = BL.size_classes(r, c, mx, align, L)
+    key = gen_key(r)
+    base = {'kind': 'blocks', 'family': family, 'const': c, 'where': cinfo['where'], 'min': mn, 'max': mx, 'key': key, 'multiples': m}
+    cases = []
+    if family == 'split':
+        style = 'random'
+        if r.random() < 0.3 and L // mn <= 20000:
+            style = r.choice(BL.PART_STYLES[1:])
+        parts = [[r.getrandbits(48), L, style]]
+        ref = BL.fill(L, nat)
+        segs = [('one-block', [[L, 1]])]
+        kinds = BL.SEG_KINDS[1:]
+        for label in sorted(sizes):
+            for kind in (kinds if thorough else [r.choice(kinds)]):
+                segs.append((f'{kind}:{label}', BL.segmentation(kind, sizes[label], L, nat)))
+        if 'above-by-a-tail' in sizes and not thorough:
+            segs.append(('last:above-by-a-tail', BL.segmentation('last', sizes['above-by-a-tail'], L, nat)))
+        seen = set()
+        for label, blocks in segs:
+            k = json.dumps(blocks)
+            if k in seen or blocks == ref:
+                continue
+            seen.add(k)
+            cases.append(dict(base, cls='split/' + label, style=style, statistical=False, a_parts=parts, b_parts=parts,
+                              a_blocks=blocks, b_blocks=ref, a_seg=label, b_seg='natural', pa=0, pb=0, u=0))
+        return cases
+    reps = 3 if thorough else 2
+    for _ in range(reps):
+        if family == 'pair':
+            X = [r.getrandbits(48), L, 'random']
+            cls = r.choice(['0-vs-k', 'small', 'around-max', 'part-of-const', 'nested-lengths'])
+            a4 = 4 * r.randint(1, max(1, mx // 2))
+            if cls == '0-vs-k':
+                l1, l2 = 0, a4
+            elif cls == 'small':
+                l1, l2 = 4 * r.randint(0, 3), 4 * r.randint(4, 9)
+            elif cls == 'around-max':
+                l1, l2 = ceil4(mx) + 4 * r.randint(-2, 2), 4 * r.randint(0, 2)
+            elif cls == 'part-of-const':       # the shared data is shifted by a sizeable part of the constant
+                l1, l2 = 4 * (c // r.choice([5, 8, 12]) // 4), 4 * r.randint(0, 3)
+            else:
+                l1, l2 = a4, a4 + 4 * r.randint(1, mx)
+            if l1 == l2:
+                l2 += 4
+            pa_parts = ([[r.getrandbits(48), l1, 'random']] if l1 else []) + [X]
+            pb_parts = ([[r.getrandbits(48), l2, 'random']] if l2 else []) + [X]
+            la, lb = l1 + L, l2 + L
+            sa, ba = pick_seg(r, sizes, la, nat)
+            sb, bb = pick_seg(r, sizes, lb, nat, want=sa.split(':')[0] if r.random() < 0.5 else None)
+            cases.append(dict(base, cls='pair/' + cls, style='random', statistical=True, a_parts=pa_parts, b_parts=pb_parts,
+                              a_blocks=ba, b_blocks=bb, a_seg=sa, b_seg=sb, pa=l1, pb=l2, u=0))
+        else:
+            pos_cls = r.choice(['early', 'early', 'before-const', 'after-const', 'middle'])
+            room = L - (D_FACTOR + 6) * mx
+            u = {'early': 4 * r.randint(0, 2 * mx), 'before-const': max(0, c - 4 * r.randint(1, 2 * mx)),
+                 'after-const': c + 4 * r.randint(0, mx), 'middle': 4 * r.randint(0, max(1, room // 4))}[pos_cls]
+            u = max(0, min(u, room // 4 * 4))
+            ek = r.choice(['insert', 'insert', 'delete', 'replace', 'overwrite'])
+            klen = r.choice([4, 8, 12, ceil4(mx), 4 * r.randint(1, mx)])
+            if ek == 'insert':
+                m1, m2 = 0, klen
+            elif ek == 'delete':
+                m1, m2 = klen, 0
+            elif ek == 'overwrite':
+                m1 = m2 = r.choice([1, 4, 5, mx])
+            else:
+                m1 = r.randint(1, 2 * mx)
+                m2 = m1 % 4 + 4 * r.randint(0, mx // 2)
+            U = [[r.getrandbits(48), u, 'random']] if u else []
+            M1 = [[r.getrandbits(48), m1, 'random']] if m1 else []
+            M2 = [[r.getrandbits(48), m2, 'random']] if m2 else []
+            X = [[r.getrandbits(48), L - u - m1, 'random']]
+            la, lb = L, L - m1 + m2
+            sa, ba = pick_seg(r, sizes, la, nat)
+            sb, bb = pick_seg(r, sizes, lb, nat, want=sa.split(':')[0] if r.random() < 0.6 else None)
+            cases.append(dict(base, cls=f'edit/{pos_cls}/{ek}', style='random', statistical=True, a_parts=U + M1 + X, b_parts=U + M2 + X,
+                              a_blocks=ba, b_blocks=bb, a_seg=sa, b_seg=sb, pa=u + m1, pb=u + m2, u=u))
+    return cases
+
+
+def block_case_small(c, obs=None):
+    d = {k: c[k] for k in ('kind', 'family', 'cls', 'const', 'style', 'statistical', 'min', 'max', 'pa', 'pb', 'u', 'a_seg', 'b_seg')}
+    d['key'] = c['key'].hex()
+    d['a'] = dict(BL.block_summary(c['a_blocks']), length=sum(n for _, n, _ in c['a_parts']))
+    d['b'] = dict(BL.block_summary(c['b_blocks']), length=sum(n for _, n, _ in c['b_parts']))
+    d['recipe_digest'] = digest([c['a_parts'], c['b_parts'], c['a_blocks'], c['b_blocks']])
+    if obs:
+        d.update(obs)
+    return d
+
+
+def block_case_full(c):
+    d = dict(c)
+    d['key'] = c['key'].hex()
+    d['how_to_rebuild'] = ('stream = concatenation of parts [seed, length, style] (harness/impl/c11_blocks.py::make_part: style random = '
+                           'random.Random(seed).randbytes(length)); handed to gclmulchunker(min_length=min, max_length=max)(blocks, params=key) in '
+                           'blocks of the run-length encoded lengths [[length, count], ...]')
+    return d
+
+
+def eval_block_case(c, align, cache, lens_cache):
+    """run the real adapter on both streams of a block case and evaluate C11's statement.  Returns (violations, observation)."""
+    A, B = BL.build_stream(c['a_parts'], cache), BL.build_stream(c['b_parts'], cache)
+    out = []
+    for S, parts, blocks in ((A, c['a_parts'], c['a_blocks']), (B, c['b_parts'], c['b_blocks'])):
+        k = (json.dumps(parts), json.dumps(blocks), c['min'], c['max'], c['key'])
+        if k not in lens_cache:
+            lens_cache[k] = impl_cuts(c['min'], c['max'], c['key'], blocks, S)
+        out.append(lens_cache[k])
+    (la, oka), (lb, okb) = out
+    obs = {'chunks': [len(la), len(lb)]}
+    if not (oka and okb):
+        return [('c11:not-lossless', 'the chunks do not concatenate to the stream (C10), C11 cannot be evaluated')], obs, la, lb
+    ta, tb = table_of_lens(la), table_of_lens(lb)
+    bad = oracle_tables(c, ta, tb, len(A), len(B), align)
+    mx = c['max']
+    if c['family'] == 'split':
+        # C11 for one stream in two segmentations (chunk_split_indep_pair / block_resplit_indep): name the finding after what it is
+        za = [(s, n) for s, n in ta if s + 2 * mx <= len(A)]
+        zb = [(s, n) for s, n in tb if s + 2 * mx <= len(B)]
+        bad = [b for b in bad if b[0] != 'c11:suffix-desync']
+        if za != zb:
+            i = next((i for i, (x, y) in enumerate(zip(za, zb)) if x != y), min(len(za), len(zb)))
+            x = za[i] if i < len(za) else None
+            y = zb[i] if i < len(zb) else None
+            sa = BL.block_summary(c['a_blocks'])
+            bad.append(('c11:cuts-depend-on-block-sizes',
+                        f'one stream of {len(A)} bytes, (min,max)=({c["min"]},{mx}): handed over as {c["a_seg"]} ({sa["blocks"]} block(s), largest {sa["largest"]}, last '
+                        f'{sa["last"]}; size class derived from the constant {c["const"]} of {c["where"][:2]}) it is cut differently than in blocks of '
+                        f'{c["b_blocks"][0][0]} bytes: chunk #{i} (offset, length) = {x} vs {y}, {len(A) - (x or y)[0]} bytes before the end (tail zone = last {2 * mx})'))
+        obs['identical_chunks_outside_tail'] = sum(1 for x, y in zip(za, zb) if x == y)
+    else:
+        ba, bb = bounds(la), bounds(lb)
+        o = first_common(ba, c['pa'], bb, c['pb'])
+        obs['first_common_boundary'] = o
+        nx = len(A) - c['pa']
+        obs['chunks_after_it_outside_tail'] = 0 if o is None else sum(1 for s, n in ta if s >= c['pa'] + o and s + 2 * mx <= len(A))
+        if o is not None:
+            obs['resync_over_max'] = round(o / mx, 3)
+    return bad, obs, la, lb
+
+
+def count_block_case(res, c, exercised_max):
+    fam = c['family']
+    res.count('kind:blocks:' + fam + (':statistical' if c['statistical'] else ''))
+    res.count('blocks:const:' + const_bucket(c['const']))
+    if c['const'] >= SMALL_CONST:
+        res.count(f'blocks:const={c["const"]}')
+    res.count('data:' + c['style'])
+    for side in ('a', 'b'):
+        seg = c[side + '_seg']
+        if fam == 'split' and side == 'b':
+            continue
+        res.count('blocks:seg:' + seg)
+        sm = BL.block_summary(c[side + '_blocks'])
+        if sm['blocks'] == 1:
+            res.count('blocks:whole-stream-as-one-block')
+        big, last = sm['largest'], sm['last']
+        res.count('blocks:largest-vs-const:' + ('below' if big < c['const'] else 'at' if big == c['const'] else 'above' if big < 2 * c['const'] else '>=2x'))
+        res.count('blocks:LAST-vs-const:' + ('below' if last < c['const'] else 'at' if last == c['const'] else 'above' if last < 2 * c['const'] else '>=2x'))
+        if last > exercised_max:
+            res.count('blocks:last-block-beyond-every-exercised-constant')
+        if last >= c['const'] + 2 * c['max']:
+            res.count('blocks:last-block-exceeds-const-by-more-than-the-tail-zone')
+
+
+def block_job(args):
+    """one pool job: all cases of the given (constant, family) list"""
+    seed, tier, jid, todo, exercised_max = args
+    use_rebuilt_chunker()
+    r = rng_for(seed, 'C11-blocks', tier, jid)
+    res = Res()
+    drv = None
+    scratch = WORK / str(os.getpid()) / 'c11b'
+    try:
+        align = impl_alignment()
+        thorough = tier != 'quick'
+        budget = QUICK_BLOCK_BUDGET if not thorough else THOROUGH_BLOCK_BUDGET
+        for cinfo, family in todo:
+            c = cinfo['value']
+            if family == 'snapshot':
+                snapshot_block_case(r, cinfo, align, res, scratch)
+                continue
+            cases = gen_block_family(r, cinfo, family, budget, align, thorough and c < HUGE_CONST)
+            if c >= HUGE_CONST:
+                cases = cases[:3] if family == 'split' else cases[:1]
+            cache, lens_cache = {}, {}
+            for case in cases:
+                if family != 'split':
+                    cache, lens_cache = {}, {}
+                try:
+                    bad, obs, la, lb = eval_block_case(case, align, cache, lens_cache)
+                except Exception as e:  # noqa: BLE001
+                    res.cases.append((block_case_small(case), False))
+                    res.disagreements.append({'what': 'implementation raised on a generated block case', 'replay': {'case': block_case_full(case), 'error': repr(e)}})
+                    continue
+                nontriv = case['a_blocks'] != case['b_blocks'] or case['a_parts'] != case['b_parts']
+                nontriv = nontriv and (obs.get('identical_chunks_outside_tail', 0) >= 3 or obs.get('chunks_after_it_outside_tail', 0) >= 3)
+                res.cases.append((block_case_small(case, obs), bool(nontriv)))
+                count_block_case(res, case, exercised_max)
+                if 'resync_over_max' in obs:
+                    res.dist.append(obs['resync_over_max'])
+                for sig, what in bad:
+                    res.violations.append({'sig': sig, 'what': what, 'replay': {'kind': 'blocks', 'case': block_case_full(case), 'observed': obs}})
+                # Lean tie on small streams: the model's adapter loop on exactly these blocks
+                total = sum(n for _, n, _ in case['a_parts']) + sum(n for _, n, _ in case['b_parts'])
+                if c < SMALL_CONST and total <= 12000 and not bad:
+                    if drv is None:
+                        try:
+                            drv = Driver()
+                        except Exception:  # noqa: BLE001
+                            drv = False
+                    if drv:
+                        A, B = BL.build_stream(case['a_parts'], cache), BL.build_stream(case['b_parts'], cache)
+                        ok = True
+                        for S, blocks, lens in ((A, case['a_blocks'], la), (B, case['b_blocks'], lb)):
+                            m = drv.ask({'op': 'chunk.all', 'min': case['min'], 'max': case['max'], 'key': case['key'].hex(),
+                                         'pieces': [p.hex() for p in BL.iter_blocks(S, blocks)]})
+                            if m.get('chunks') != lens:
+                                ok = False
+                                res.disagreements.append({'what': 'chunk lengths of a stream in size-constant blocks differ between model and implementation',
+                                                          'replay': {'kind': 'blocks', 'case': block_case_full(case), 'model': m, 'impl': lens}})
+                                break
+                        if ok:
+                            res.validated += 1
+                            res.count('blocks:lean-tie')
+    finally:
+        if drv:
+            res.counts['__driver_requests'] = drv.count
+            drv.close()
+        _uninstall_recorder()
+        shutil.rmtree(WORK / str(os.getpid()), ignore_errors=True)
+    return res.__dict__
+
+
+def snapshot_block_recipe(r, cinfo, align):
+    c = cinfo['value']
+    ok = [(mn, mx) for mn, mx in BL.PARAM_TABLE if c + BL.TAIL_FACTOR * mx <= SNAP_BLOCK_BUDGET and (c + BL.TAIL_FACTOR * mx) // mx <= 260]
+    if not ok:
+        return None
+    mn, mx = ok[0]
+    n = c + r.randint(BL.TAIL_FACTOR, BL.TAIL_FACTOR + 6) * mx + r.randint(0, 7)
+    u = 4 * r.randint(0, 4 * mx // 4)
+    ek = r.choice(['insert', 'insert', 'delete', 'replace'])
+    klen = r.choice([4, 8, 12, 4 * r.randint(1, 64)])
+    m1, m2 = {'insert': (0, klen), 'delete': (klen, 0), 'replace': (klen, klen + 4 * r.randint(1, 8))}[ek]
+    small = [[f's{j}', [r.getrandbits(48), r.choice([0, 1, 2, 3, 5, 6, 7, 9, 13, mx + 1, r.randint(0, 3 * mx)]), 'random']] for j in range(r.randint(0, 3))]
+    U = [[r.getrandbits(48), u, 'random']] if u else []
+    M1 = [[r.getrandbits(48), m1, 'random']] if m1 else []
+    M2 = [[r.getrandbits(48), m2, 'random']] if m2 else []
+    X = [[r.getrandbits(48), n - u - m1, 'random']]
+    return {'kind': 'blocks-snapshot', 'const': c, 'where': cinfo['where'], 'min': mn, 'max': mx, 'cls': f'snapshot-edit/{ek}', 'small_files': small,
+            'big_name': 'zz-big.img', 'a_parts': U + M1 + X, 'b_parts': U + M2 + X, 'u': u, 'm1': m1, 'm2': m2}
+
+
+def eval_snapshot_block(rc, align, scratch, tag):
+    """two real snapshots (fresh unencrypted local repositories) of a directory whose large file differs by one aligned local edit;
+    C11's statement on the two recorded chunker runs.  Returns (violations, observation)."""
+    cache = {}
+    small = [(nm, BL.make_part(*part)) for nm, part in rc['small_files']]
+    bigs = [BL.build_stream(rc['a_parts'], cache), BL.build_stream(rc['b_parts'], cache)]
+    runs = []
+    for side, big in enumerate(bigs):
+        pieces, chunks, data, src = real_snapshot(scratch, rc['min'], rc['max'], small + [(rc['big_name'], big)], f'{tag}_{side}')
+        runs.append((pieces, chunks))
+    starts = []
+    for (pieces, chunks), big in zip(runs, bigs):
+        total = sum(len(p) for p in pieces)
+        st = total - len(big)
+        tail = b''.join(pieces)[st:] if st >= 0 else None
+        if tail != big:
+            return [('c11:snapshot-file-misplaced', f'the largest file ({len(big)} bytes) is not the end of the snapshot stream ({total} bytes)')], {}
+        starts.append(st)
+    case = {'kind': 'edit', 'statistical': True, 'min': rc['min'], 'max': rc['max'], 'a': runs[0][0], 'b': runs[1][0],
+            'pa': starts[0] + rc['u'] + rc['m1'], 'pb': starts[1] + rc['u'] + rc['m2'], 'u': starts[0] + rc['u'] if starts[0] == starts[1] else 0}
+    bad = oracle(case, runs[0][1], runs[1][1], align)
+    la, lb = [len(x) for x in runs[0][1]], [len(x) for x in runs[1][1]]
+    o = first_common(bounds(la), case['pa'], bounds(lb), case['pb'])
+    obs = {'file_start': starts, 'blocks_read': [[len(p) for p in ps][-4:] for ps, _ in runs], 'chunks': [len(la), len(lb)], 'first_common_boundary': o,
+           'new_chunks_in_second_snapshot': len(set(runs[1][1]) - set(runs[0][1]))}
+    return bad, obs
+
+
+def snapshot_block_case(r, cinfo, align, res, scratch):
+    rc = snapshot_block_recipe(r, cinfo, align)
+    if rc is None:
+        return
+    scratch.mkdir(parents=True, exist_ok=True)
+    try:
+        bad, obs = eval_snapshot_block(rc, align, scratch, f'bs{cinfo["value"]}')
+    except Exception as e:  # noqa: BLE001
+        res.disagreements.append({'what': 'Repository.snapshot raised on a generated large-file case', 'replay': {'case': rc, 'error': repr(e)}})
+        return
+    d = {k: rc[k] for k in ('kind', 'const', 'min', 'max', 'cls', 'u', 'm1', 'm2')}
+    d['file_length'] = [sum(n for _, n, _ in rc['a_parts']), sum(n for _, n, _ in rc['b_parts'])]
+    d.update(obs)
+    res.cases.append((d, obs.get('first_common_boundary') is not None and min(obs.get('chunks', [0])) >= 6))
+    res.count('kind:blocks:snapshot-edit:statistical')
+    res.count(f'blocks:snapshot:file-just-above-const={rc["const"]}')
+    for sig, what in bad:
+        res.violations.append({'sig': sig, 'what': f'two real snapshots of a directory whose {d["file_length"][0]}-byte file got a local edit ({rc["cls"]} at {rc["u"]}), '
+                               f'file read in blocks {obs.get("blocks_read")}: ' + what, 'replay': dict(rc, observed=obs)})
+
+
+def plan_block_jobs(seed, tier, consts):
+    """[(constant, family)] lists, one per pool job; and what is left out in this tier"""
+    thorough = tier != 'quick'
+    budget = THOROUGH_BLOCK_BUDGET if thorough else QUICK_BLOCK_BUDGET
+    r = rng_for(seed, 'C11-blocks-plan', tier)
+    small = [c for c in consts if c['value'] < SMALL_CONST]
+    big = [c for c in consts if c['value'] >= SMALL_CONST]
+    fits = [c for c in big if BL.params_for(r, c['value'], budget) is not None]
+    left = [c['value'] for c in big if c not in fits]
+    jobs = []
+    pick = small if thorough else r.sample(small, min(6, len(small)))
+    step = 6
+    for i in range(0, len(pick), step):
+        jobs.append([(c, fam) for c in pick[i:i + step] for fam in ('split', 'pair', 'edit')])
+    for c in fits:
+        if c['value'] >= HUGE_CONST:
+            jobs.append([(c, 'split'), (c, 'pair')])
+            continue
+        for rep in range(4 if thorough else 1):
+            jobs += [[(c, 'split')], [(c, 'pair'), (c, 'edit')]]
+    snap = [c for c in big if c['value'] >= 65536 and c['value'] + BL.TAIL_FACTOR * 1024 <= SNAP_BLOCK_BUDGET]
+    snap = [c for c in snap if any(c['value'] + BL.TAIL_FACTOR * mx <= SNAP_BLOCK_BUDGET and (c['value'] + BL.TAIL_FACTOR * mx) // mx <= 260 for _, mx in BL.PARAM_TABLE)]
+    if not thorough and len(snap) > 3:
+        # the largest ones are the interesting ones (close to the read size of _stream_files); rotate the rest with the seed
+        snap = sorted(snap, key=lambda c: c['value'])
+        snap = snap[-2:] + [snap[seed % (len(snap) - 2)]]
+    for c in snap:
+        jobs.append([(c, 'snapshot')])
+    exercised = [c['value'] for c in fits] + [c['value'] for c in pick]
+    return jobs, {'exercised': sorted(set(exercised)), 'above_budget_not_exercised': left, 'snapshot_constants': [c['value'] for c in snap],
+                  'budget_bytes_per_stream': budget}
+
+
+def pool_job(args):
+    if args[0] == 'blocks':
+        return block_job(args[1:])
+    return batch(args)
+
+
 # ------------------------------------------------------------------------------------------------ entry points
 def run(out, drv, info):
     quick = out.tier == 'quick'
@@ -743,18 +1152,38 @@ def run(out, drv, info):
                 'segmentation (single, equal, 1-byte, with empty pieces, random); data random / zeros / periodic / 4-letter text / sparse; (min,max) valid incl. '
                 'max%4≠0 and min=max; + pairs of real snapshots sharing one file at different offsets; + key pairs. non-trivial = streams differ, a common '
                 'boundary exists and ≥ 3 chunks follow it outside the tail zone (snapshots: different offsets and ≥ 3 identical chunks inside the file); '
-                'distinct = hash of (params, key, both piece lists). Statistical clauses (labelled): only random data with min ≤ max/16.')
+                'distinct = hash of (params, key, both piece lists). Statistical clauses (labelled): only random data with min ≤ max/16. '
+                '+ BLOCK SIZES: for every integer constant c ≥ 2 of adapters.py / repository.py / adapters.cpp (below 4096: 6 per run, with the Lean tie; '
+                'up to the tier\'s budget per stream: all) streams of m·c + (28..36)·max bytes (m ≤ 3) handed over as one block, and with blocks of '
+                'c-δ / c / c+δ / c+(3..8)·max / 2c / (3..5)·c as last / first / middle / every / last two blocks, each compared with the same stream in '
+                'blocks below c (split independence), as pairs with shifted shared data and as local edits (early / just before c / after c), '
+                'and as two real snapshots of a directory whose large file (just above c) got an aligned local edit.')
     out.assumptions = ['the keyed CLMUL hash is an arbitrary function in every theorem; its executable model is validated here against the rebuilt C++',
                        f'STATISTICAL (not proved): hash values of distinct windows behave like independent uniform draws; resync bound D = {D_FACTOR}·max chosen '
                        'from a measured geometric tail (≈ 4e-2, 4e-4, 1e-5 beyond 1, 2, 3·max; conservative ratio 1/20 per max ⇒ < 1e-15 per case); '
                        f'distinct random keys differ on ≥ {KEY_DATA_FACTOR}·max random bytes',
                        'CPU PCLMULQDQ, CPython bytearray slicing, local file system of the scratch repository']
     jobs = [(out.seed, out.tier, w, *per) for w in range(workers)]
+    # input blocks of every size class: sizes derived from the integer constants of the source (the same function the extractor
+    # uses for Gen.sizeConstants); big streams first so that they overlap with the small-parameter batches
+    consts = BL.size_constants(REPO)
+    plan, plan_info = plan_block_jobs(out.seed, out.tier, consts)
+    exercised_max = max(plan_info['exercised'] or [0])
+    bjobs = [('blocks', out.seed, out.tier, j, todo, exercised_max) for j, todo in enumerate(plan)]
+    bjobs.sort(key=lambda a: -max(c['value'] for c, _ in a[4]))
+    thr, thr_notes = BL.block_thresholds(REPO / 'replicat' / 'utils' / 'adapters.py')
+    out.extra['block_sizes'] = dict(plan_info, size_constants=[c['value'] for c in consts],
+                                    adapter_block_thresholds=thr, adapter_block_threshold_sites=thr_notes, jobs=len(bjobs))
+    for v in plan_info['above_budget_not_exercised']:
+        out.count(f'blocks:const={v}:above-this-tier\'s-budget(NOT exercised)')
     ctx = multiprocessing.get_context('fork')
-    with ctx.Pool(workers) as pool:
-        results = pool.map(batch, jobs, chunksize=1)
+    with ctx.Pool(min(ncpu, workers + (4 if quick else 0))) as pool:
+        t_pool = time.time()
+        results = pool.map(pool_job, bjobs + jobs, chunksize=1)
+        out.extra['phase_s'] = {'pool(batches + block jobs)': round(time.time() - t_pool, 1)}
     dists = []
     dreq = 0
+    viol = []
     for res in results:
         for case, nt in res['cases']:
             out.case(case, nt)
@@ -763,18 +1192,27 @@ def run(out, drv, info):
                 dreq += v
             else:
                 out.count(k, v)
-        for v in res['violations']:
-            out.violation(v['sig'], v['what'], v['replay'])
+        viol += res['violations']
         for d in res['disagreements']:
             out.disagreement(d['what'], d['replay'])
         out.traces_validated += res['validated']
         dists += res['dist']
+    # report the simplest failing inputs first: block cases built from a constant the adapter loop itself uses, then shorter streams
+
+    def simplicity(v):
+        c = v['replay'].get('case', v['replay']) if v['replay'].get('kind', '').startswith('blocks') else None
+        if c is None:
+            return (0, 0, 0)
+        return (1, 0 if c.get('const') in (thr or []) else 1, sum(n for _, n, _ in c.get('a_parts', [])))
+    for v in sorted(viol, key=simplicity):
+        out.violation(v['sig'], v['what'], v['replay'])
     if dists:
         dists.sort()
         out.extra['resync_distance_over_max(statistical cases)'] = {
             'n': len(dists), 'median': dists[len(dists) // 2], 'p99': dists[int(len(dists) * 0.99)], 'max': dists[-1], 'bound': D_FACTOR}
     out.extra['worker_driver_requests'] = dreq
     r = rng_for(out.seed, 'C11-main', out.tier)
+    t_rest = time.time()
     corpus_part(out, drv)
     keys_part(out, drv, r, 24 if quick else 400)
     scratch = WORK / str(os.getpid()) / 'c11'
@@ -786,6 +1224,7 @@ def run(out, drv, info):
         shutil.rmtree(WORK / str(os.getpid()), ignore_errors=True)
     if not quick:
         big_part(out, r)
+    out.extra['phase_s']['corpus + keys + snapshots'] = round(time.time() - t_rest, 1)
 
 
 def big_part(out, r):
@@ -817,6 +1256,24 @@ def replay(path, drv):
         bad = oracle(c, ca, cb, impl_alignment())
         print('lens A', [len(x) for x in ca][:40], '\nlens B', [len(x) for x in cb][:40], '\noracle:', bad)
         return 1 if bad else 0
+    if kind == 'blocks':
+        c = dict(rp['case'])
+        c['key'] = bytes.fromhex(c['key'])
+        bad, obs, la, lb = eval_block_case(c, impl_alignment(), {}, {})
+        print('blocks A', BL.block_summary(c['a_blocks']), 'blocks B', BL.block_summary(c['b_blocks']),
+              '\nlens A', la[:20], '…', '\nlens B', lb[:20], '…', '\nobserved', obs, '\noracle:', bad)
+        return 1 if bad else 0
+    if kind == 'blocks-snapshot':
+        scratch = WORK / str(os.getpid()) / 'c11b'
+        try:
+            scratch.mkdir(parents=True, exist_ok=True)
+            rc = {k: v for k, v in rp.items() if k != 'observed'}
+            bad, obs = eval_snapshot_block(rc, impl_alignment(), scratch, 'replay')
+            print('observed', obs, '\noracle:', bad)
+            return 1 if bad else 0
+        finally:
+            _uninstall_recorder()
+            shutil.rmtree(WORK / str(os.getpid()), ignore_errors=True)
     if kind == 'keys':
         S = bytes.fromhex(rp['data'])
         k1, k2 = bytes.fromhex(rp['key1']), bytes.fromhex(rp['key2'])
